@@ -7,7 +7,7 @@ import zlib
 import refcodec
 from lib import hx
 
-EXTRA_PROPS = ['C01Dispatch', 'C01DispatchLive', 'C01Buffer']
+EXTRA_PROPS = ['C01Dispatch', 'C01DispatchLive', 'C01Buffer', 'C01BufferFrame']
 
 EXTRACT = ['gen.c01dispatch']
 
@@ -758,6 +758,35 @@ def buffer_tie(ctx):
                         ops.append(('g',))
                         expect.append(sent)
         seqs.append((ops, expect, disciplined))
+    # the exact operation sequences of read_packet (Props/C01BufferFrame): reassembly loop with a
+    # get_writable after every segment, reset_cursor, [k one-byte reads, read(), reset, send(d),
+    # reset_cursor,] sized reads
+    for i in range(ctx.scale(150, 2500)):
+        ops, expect = [], []
+        sent = b''
+        for _ in range(rng.randrange(1, 5)):
+            v = blob()
+            ops += [('s', v), ('g',)]
+            sent += v
+            expect.append(sent)
+        ops.append(('c',))
+        rest = sent
+        if i % 2:
+            k = rng.randrange(0, 4)
+            for _ in range(k):
+                ops.append(('r', 1))
+                expect.append(rest[:1])
+                rest = rest[1:]
+            d = blob() + blob()
+            ops += [('r', None), ('R',), ('s', d), ('c',)]
+            expect.append(rest)
+            rest = d
+        for _ in range(rng.randrange(0, 6)):
+            n = rng.choice([0, 1, 1, 2, 3, 8, 100])
+            ops.append(('r', n))
+            expect.append(rest[:n])
+            rest = rest[n:]
+        seqs.append((ops, expect, True))
     lines = ['pbuf.run ' + ' '.join(tok(o) for o in ops) for ops, _, _ in seqs]
     for (ops, expect, disc), line, m in zip(seqs, lines, ctx.driver.ask(lines)):
         w, outs = live(ops)
